@@ -99,6 +99,30 @@ def build(tier="quick", seed=0):
             no_raise(b, fn, paths, pre)
     except ExtractError as e:
         b.subset_exits.append(str(e))
+    # the dual-body caller hands each body its own bulk properties (the rho g R of the formula) - contract shared with C11
+    try:
+        from contracts import C11
+        bb2 = Bundle("C12")
+        C11.dual_call_site(bb2)
+        for ob_ in bb2.obligations:
+            if "own_bulk_properties" in ob_.oid or "two_worlds" in ob_.oid:
+                b.add(ob_)
+        b.functions.update(bb2.functions)
+        b.subset_exits += bb2.subset_exits
+    except Exception as e:
+        b.subset_exits.append(f"quick_dual_body_tidal_dissipation (imported from C11): {type(e).__name__}: {e}")
+    # the layered tides model feeds the formula with each layer's own (scale, R, rho, surface g) - contract shared with C13
+    try:
+        from contracts import C13
+        bb3 = Bundle("C12")
+        C13.layered_getters(bb3)
+        for ob_ in bb3.obligations:
+            b.add(ob_)
+        b.functions.update(bb3.functions)
+        b.subset_exits += bb3.subset_exits
+        b.replayers += [r_ for r_ in bb3.replayers]
+    except Exception as e:
+        b.subset_exits.append(f"LayeredTides.reinit getters (imported from C13): {type(e).__name__}: {e}")
     b.assume("agreement with the layered radial solver is the Kelvin lemma of C01 instantiated at complex mu = 1/J; not re-proved here")
     b.assume("symbolic degree l is a real >= 2; integer-ness of order_l is not used")
     return b
